@@ -340,6 +340,11 @@ def circOp (s : Sess) (w : List String) : Option (Sess × String) :=
       match c.compile with
       | .ok c' => pure (s.setC id c', "ok")
       | .error e => pure (s, encErr e)
+  | [id, "compilelayers"] => do
+      let c ← s.getC id
+      match c.compileLayersOnly with
+      | .ok c' => pure (s.setC id c', "ok")
+      | .error e => pure (s, encErr e)
   | [id, "layers"] => do
       let c ← s.getC id
       pure (s, "|".intercalate (c.layers.map encLayer))
